@@ -76,8 +76,28 @@ FUNCS = {
 }
 
 
+class Ctx(object):
+    """context manager: `with ctx(v) as w` binds w = v + 1 and counts its exits"""
+    exits = 0
+
+    def __init__(self, v=0):
+        self.v = v
+
+    def __enter__(self):
+        return self.v + 1 if isinstance(self.v, int) else self.v
+
+    def __exit__(self, *exc):
+        Ctx.exits += 1
+        return False
+
+    def __repr__(self):
+        return '<Ctx %r>' % (self.v,)
+
+
 def build_value(spec):
     if isinstance(spec, dict):
+        if '$cm' in spec:
+            return Ctx
         if '$obj' in spec:
             return Obj(spec.get('name', 'o'), dict((k, build_value(v)) for k, v in spec['$obj'].items()))
         if '$objitems' in spec:
@@ -144,6 +164,7 @@ def full_data(rng):
     d['obj'] = {'$obj': dict((k, ints()) for k in ['a', 'b', 'k', 'val', 'x'])}
     d['f'] = {'$fn': 'inc'}
     d['s'] = rng.choice(['abc', '', 'hello world'])
+    d['ctx'] = {'$cm': 1}
     return d
 
 
